@@ -184,6 +184,31 @@ def fn(sysm, snap, model):
                 o.viol("C13", "witness_wrong_answer", "the witness alone gives a different answer than the trie", call="witness", key=p, query=q)
                 break
             o.nontrivial += 1
+    # a stored value that happens to be the hash of a node of the same database (e.g. an earlier root kept as a value)
+    for knew in sysm.probes:
+        if knew in model or bt.conflicts(model, knew):
+            continue
+        t2 = restore(snap, logdict=False)
+        m2 = dict(model)
+        try:
+            t2.set(knew, root)
+        except Exception:  # noqa
+            break
+        m2[knew] = root
+        o.evals += 1
+        want2 = set(bt.nodes(m2).values())
+        try:
+            if set(get_trie_nodes(t2.db, t2.root_hash)) != want2:
+                o.viol("C13", "trie_nodes_wrong", "get_trie_nodes does not return exactly the reachable nodes when a stored value equals a node hash",
+                       call="get_trie_nodes", kind="value_is_a_node_hash", model=m2)
+            elif not set(get_witness_for_key_prefix(t2.db, t2.root_hash, b"")) <= want2:
+                o.viol("C13", "witness_foreign_node", "the witness contains a node that is not part of the trie (a stored value equals a node hash)",
+                       call="witness", kind="value_is_a_node_hash")
+            else:
+                o.nontrivial += 1
+        except Exception as e:  # noqa
+            o.viol("C13", "trie_nodes_raised", f"get_trie_nodes raised {type(e).__name__}", call="get_trie_nodes", kind="value_is_a_node_hash")
+        break
     if not o.samples:
         o.samples.append(dict(model=model, branches={k.hex(): len(b) for k, b in branches.items()}))
     return o
@@ -204,7 +229,8 @@ def run(tier, seed):
                 "check_if_branch_exist vs key set; get_trie_nodes vs canonical node set; witnesses read alone in a fresh db; non-trivial = a forged "
                 "(branch, key) all of whose wrong answers were rejected, a confirmed honest branch, a witness read")
     rep.assumptions = ["Keccak collisions assumed away", "binary universe B8 of DESIGN §4", "oracle mcx/ref/bintrie.py"]
-    plans = [dict(universe="B8", values=("a", "bb"))]
+    plans = [dict(universe="B8", values=("a", "bb")), dict(universe="BC", values=("a",)), dict(universe="BLK", values=("a", "bb")),
+             dict(universe="BXL", values=("a",))]
     if tier == "thorough":
         plans = [dict(universe="B10", values=("a", "bb")), dict(universe="B4L", values=("a", "bb", "c33"))]
     for kw in plans:
